@@ -574,14 +574,16 @@ async fn wait_for_first_slot(
             let handle = tokio::spawn(async move {
                 // PERF: These are burning a CPU. Can we use async here?
                 loop {
+                    // a later finalization comes first: the window is decided, and the pool may have
+                    // pruned it, in which case `ParentReady` can never be emitted for it anymore
+                    if pool.read().await.finalized_slot() >= first_slot_in_window {
+                        return None;
+                    }
                     let last_slot_in_prev_window = first_slot_in_window.prev();
                     if let Some(hash) = blockstore.read().await
                         .disseminated_block_hash(last_slot_in_prev_window)
                     {
                         return Some((last_slot_in_prev_window, hash.clone()));
-                    }
-                    if pool.read().await.finalized_slot() >= first_slot_in_window {
-                        return None;
                     }
                     sleep(Duration::from_millis(1)).await;
                 }
